@@ -315,6 +315,16 @@ class CoDomain(Domain):
         elif isinstance(tn, ast.Attribute) and tn.attr == 'value':
             # promise value: self._promises[g].value = ...
             inner = tn.value
+            stale = [v for c_, v in (getattr(ev.target, 'binds', None) or ())
+                     if c_ == P and v != st.versions.get(P, 0)]
+            if stale and st.data.get('stopiter') and P in norm(inner):
+                self._issue(st, ev.node, 'the returned value is stored in a '
+                            'promise object that was read from the table '
+                            'before the coroutine was stepped: a body that '
+                            'kills and restarts itself during its last step '
+                            'has a new promise under the same key - that one '
+                            '(the coroutine\'s promise) is dropped without '
+                            'the value')
             if isinstance(inner, ast.Subscript) and dotted(inner.value) == P \
                     and self._is_focus(st, norm(inner.slice)):
                 if not fo['inP']:
@@ -433,6 +443,10 @@ class CoDomain(Domain):
                 s = st.copy()
                 s.data['focus']['inK'] = kill
                 s.data['havoc'] = True
+                # ... or kill and start itself again (the documented pause /
+                # resume idiom): start() files a NEW promise under the same
+                # key, a promise object read before the step is stale
+                s.bump(P)
                 out.append((None, s))
                 s2 = s.copy()
                 s2.data['stopiter'] = True
@@ -706,6 +720,40 @@ def run_process(program, rep, prefix='C09'):
             results.setdefault(('active loop', 'StopIteration'),
                                {'ok': 0, 'bad': []})['bad'].append(
                 'StopIteration of a finished coroutine escapes process()')
+    # a coroutine dropped from the tables is not kept alive by another
+    # attribute of the processor when the frame ends
+    held = None
+    n_exit = 0
+    for ex in exits:
+        if ex.kind == 'raise':
+            continue
+        n_exit += 1
+        tr = ex.state.trace
+        last = {}
+        for i, e in enumerate(tr):
+            if e.kind == 'store' and e.target is not None and isinstance(
+                    e.target.node, ast.Attribute) and e.target.text.startswith(
+                        'self.') and e.target.text not in (G, K, P, AQ, WQ):
+                last[e.target.text] = (i, e)
+        for attr, (i, e) in last.items():
+            if not any(q in e.sym.text for q in (AQ, WQ)):
+                continue
+            dropped = [x for x in tr[i:] if x.kind == 'del' and x.target
+                       is not None and x.target.text.startswith(G + '[')]
+            if dropped and held is None:
+                held = (attr, e, dropped[0])
+    if held is not None:
+        rep.bad(f'{prefix}.release', site, held[1].node,
+                f'{held[0]} still refers to the coroutine ({held[1].sym.text})'
+                ' on a path of process() that drops it from the tables '
+                f'afterwards ({norm(held[2].node)}) and returns: the finished '
+                'generator is kept alive by the processor after the frame in '
+                'which it ended', line=getattr(held[1].node, 'lineno', None))
+    else:
+        rep.ok(f'{prefix}.release', site, 'process(): attributes at exit',
+               f'on all {n_exit} normal exits no attribute outside the tables '
+               'refers to a coroutine dropped during the frame',
+               line=f.node.lineno)
     want_keys = [('wake loop', 'waiting'), ('wake loop', 'waiting+kill'),
                  ('active loop', 'active'), ('active loop', 'active+kill')]
     for key in want_keys:
